@@ -66,6 +66,10 @@ func main() {
 		}
 		p := loadProgram(*repo, overlay)
 		if *dump != "" {
+			if strings.HasPrefix(*dump, "table:") {
+				dumpTables(p, strings.TrimPrefix(*dump, "table:"))
+				return
+			}
 			dumpFuncs(p, *dump)
 			return
 		}
@@ -161,6 +165,19 @@ func dumpFuncs(p *Program, sub string) {
 				}
 				fmt.Println()
 			}
+		}
+	}
+}
+
+func dumpTables(p *Program, sub string) {
+	for _, f := range p.ModFuncs {
+		if !strings.Contains(f.String(), sub) {
+			continue
+		}
+		tb, ok := p.DecisionTable(f, nil, nil)
+		fmt.Printf("== %s ok=%v\n", f.String(), ok)
+		if ok {
+			fmt.Print(tb.String())
 		}
 	}
 }
